@@ -122,6 +122,11 @@ func (c14) Build(tier string, seed uint64) []any {
 		add(runLimitBatches([]int{8, 10, 12, 16}, []int{1}, []int{0, 2}, 16, []int{1, 2}))
 		add(runLimitBatches([]int{8, 12}, []int{3}, []int{0, 1}, 8, []int{1}))
 	}
+	if th {
+		add(tallRunBatches([]int{11, 12, 13, 14, 15, 16}, []int{1, 2, 3, 5, 8}, []int{0, 1}, 96))
+	} else {
+		add(tallRunBatches([]int{12, 16}, []int{1, 3, 8}, []int{0}, 64))
+	}
 	for j, g := range areaSizes(tier == "thorough", seed) {
 		for i, pn := range [][2]int{{8, 0}, {12, 0}, {16, 0}, {8, 2}} {
 			if tier != "thorough" && (j+i+int(seed))%2 == 0 {
